@@ -112,6 +112,8 @@ def emit_item(it):
     if k == "array":
         init = it["text"] if "text" in it else rexpr(it, it["node"], 3)
         return "extern %s %s[%s];" % (it.get("el", "int"), it["name"], init)
+    if k == "scoped":
+        return it["text"]
     if k == "tmpl":
         # (a template argument must not contain an unparenthesised '>')
         return "extern XT<(%s)> %s;" % (rexpr(it, it["node"], 3), it["name"])
@@ -142,6 +144,8 @@ def constants_of(it):
         return [(it["name"], "array", "sizeof(%s)/sizeof(%s[0])" % (it["name"], it["name"]))]
     if k == "tmpl":
         return [(it["name"], "tmpl", "sizeof(%s.v)/sizeof(int)" % it["name"])]
+    if k == "scoped":
+        return [(c[0], "scoped", c[1]) for c in it["consts"]]
     return []
 
 
@@ -161,6 +165,9 @@ def expected_py(it):
                 break
             out[e] = v
             prev = v
+    elif k == "scoped":
+        for c in it["consts"]:
+            out[c[0]] = c[2]
     elif k in ("enum", "macro", "array", "tmpl") and it.get("node") is not None:
         r = E.try_eval(it["node"])
         if r:
@@ -333,7 +340,21 @@ def read_db(d):
                 if mt is not None and mt["is_array"]:
                     tmpl[e["name"]] = mt["array_size"]
     protos = {f["name"]: f.get("prototype", "") for f in d["functions"]}
-    return dict(enums=enums, enum_types=enum_types, manifests=mans, arrays=arrays, tmpl=tmpl, protos=protos)
+    scoped = {}          # scoped element name -> array size (of the element, or of the member v of its XT<...> type)
+    for e in d["elements"]:
+        t = types.get(e["type"])
+        if t is None:
+            continue
+        if t["is_array"]:
+            scoped[e["scoped_name"]] = t["array_size"]
+        elif t["is_struct"] or t["is_class"]:
+            for ei in t["elements"]:
+                m = elems.get(ei["index"] if isinstance(ei, dict) else ei)
+                mt = types.get(m["type"]) if m else None
+                if mt is not None and mt["is_array"]:
+                    scoped[e["scoped_name"]] = mt["array_size"]
+    return dict(enums=enums, enum_types=enum_types, manifests=mans, arrays=arrays, tmpl=tmpl, protos=protos,
+                scoped=scoped)
 
 
 def observe(db, it):
@@ -350,6 +371,10 @@ def observe(db, it):
     elif k == "macro":
         m = db["manifests"].get(it["name"])
         out[it["name"]] = ("missing",) if m is None else (("val", m[1]) if m[0] else ("uneval",))
+    elif k == "scoped":
+        for c in it["consts"]:
+            sz = db["scoped"].get(c[0])
+            out[c[0]] = ("missing",) if sz is None else (("uneval",) if sz < 0 else ("val", sz))
     elif k == "tmpl":
         sz = db["tmpl"].get(it["name"])
         out[it["name"]] = ("missing",) if sz is None else (("uneval",) if sz < 0 else ("val", sz))
@@ -661,6 +686,9 @@ def judge_batch(ctx, case, res, items, prelude=""):
 
 def note_features(res, it, idx):
     k = it["k"]
+    if k == "scoped":
+        res.features.add("xtalk:same-name:" + it["form"])
+        return
     if k == "chain":
         e, n = it["elems"][idx]
         if n is None:
@@ -715,6 +743,11 @@ def explain(B, failing):
                 # only fails in its own context (e.g. as an array bound): minimise within that context
                 key, witness, minnode, wit = ctx_minimise(B, it, ob)
             report(B, key, it, cn, witness, ob, minnode, wit)
+            continue
+        if it["k"] == "scoped":
+            # two entities of the same simple name in different scopes, used in one translation unit
+            key = "%s:same-name-different-entity:form=%s" % (CAT[ob[0]], it["form"])
+            report(B, key, it, cn, it["text"], ob, None, [it])
             continue
         node = failing_node(it, cn)
         if node is None:
@@ -1234,6 +1267,52 @@ def gen_xtalk(case):
         rng.shuffle(variants)
         for v in variants:
             add(ctx, v)
+    # same spelling, different entity: constants / enumerators of one simple name in different classes, namespaces and
+    # nested scopes, used as array bounds and template arguments next to each other
+    forms = ["static-member", "class-enum", "namespace-const", "shadow", "tmpl-namespace", "tmpl-member", "enum-class"]
+    rng.shuffle(forms)
+    for form in forms[:case.get("scoped", 4)]:
+        n[0] += 1
+        g = n[0]
+        v1, v2 = rng.sample(range(2, 40), 2)
+        nm = rng.choice(["N", "count", "SIZE", "kLen"])
+        if form == "static-member":
+            dk = rng.choice(["static const int", "static constexpr int"])
+            text = "struct XA_%d { %s %s = %d; int values[%s]; };\nstruct XB_%d { %s %s = %d; int values[%s]; };" % (
+                g, dk, nm, v1, nm, g, dk, nm, v2, nm)
+            consts = [["XA_%d::values" % g, "sizeof(XA_%d::values)/sizeof(int)" % g, v1],
+                      ["XB_%d::values" % g, "sizeof(XB_%d::values)/sizeof(int)" % g, v2]]
+        elif form == "class-enum":
+            text = ("struct XR_%d { enum { %s = %d }; };\nstruct XC_%d { enum { %s = %d }; };\n"
+                    "extern int xr_%d[(int)XR_%d::%s];\nextern int xc_%d[(int)XC_%d::%s];" %
+                    (g, nm, v1, g, nm, v2, g, g, nm, g, g, nm))
+            consts = [["xr_%d" % g, "sizeof(xr_%d)/sizeof(int)" % g, v1], ["xc_%d" % g, "sizeof(xc_%d)/sizeof(int)" % g, v2]]
+        elif form == "enum-class":
+            text = ("enum class XE_%d { %s = %d };\nenum class XF_%d { %s = %d };\n"
+                    "extern int xe_%d[(int)XE_%d::%s];\nextern int xf_%d[static_cast<int>(XF_%d::%s)];" %
+                    (g, nm, v1, g, nm, v2, g, g, nm, g, g, nm))
+            consts = [["xe_%d" % g, "sizeof(xe_%d)/sizeof(int)" % g, v1], ["xf_%d" % g, "sizeof(xf_%d)/sizeof(int)" % g, v2]]
+        elif form == "namespace-const":
+            text = ("namespace XN_%d { const int %s = %d; }\nnamespace XM_%d { const int %s = %d; }\n"
+                    "extern int xn_%d[XN_%d::%s];\nextern int xm_%d[XM_%d::%s];" % (g, nm, v1, g, nm, v2, g, g, nm, g, g, nm))
+            consts = [["xn_%d" % g, "sizeof(xn_%d)/sizeof(int)" % g, v1], ["xm_%d" % g, "sizeof(xm_%d)/sizeof(int)" % g, v2]]
+        elif form == "shadow":
+            text = ("const int XS_%d = %d;\nstruct XH_%d { static const int XS_%d = %d; int inner[XS_%d]; "
+                    "struct In { static const int XS_%d = %d; int deep[XS_%d]; }; };\nextern int xo_%d[XS_%d];" %
+                    (g, v1, g, g, v2, g, g, v1 + v2, g, g, g))
+            consts = [["XH_%d::inner" % g, "sizeof(XH_%d::inner)/sizeof(int)" % g, v2],
+                      ["XH_%d::In::deep" % g, "sizeof(XH_%d::In::deep)/sizeof(int)" % g, v1 + v2],
+                      ["xo_%d" % g, "sizeof(xo_%d)/sizeof(int)" % g, v1]]
+        elif form == "tmpl-namespace":
+            text = ("namespace XN_%d { const int %s = %d; }\nnamespace XM_%d { const int %s = %d; }\n"
+                    "extern XT<XN_%d::%s> xtn_%d;\nextern XT<XM_%d::%s> xtm_%d;" % (g, nm, v1, g, nm, v2, g, nm, g, g, nm, g))
+            consts = [["xtn_%d" % g, "sizeof(xtn_%d.v)/sizeof(int)" % g, v1], ["xtm_%d" % g, "sizeof(xtm_%d.v)/sizeof(int)" % g, v2]]
+        else:
+            text = ("struct XP_%d { static constexpr int %s = %d; XT<%s> t; };\n"
+                    "struct XQ_%d { static constexpr int %s = %d; XT<%s> t; };" % (g, nm, v1, nm, g, nm, v2, nm))
+            consts = [["XP_%d::t" % g, "sizeof(XP_%d::t.v)/sizeof(int)" % g, v1],
+                      ["XQ_%d::t" % g, "sizeof(XQ_%d::t.v)/sizeof(int)" % g, v2]]
+        items.append(dict(k="scoped", name="xs_%d" % g, form=form, text=text, consts=consts))
     return items
 
 
@@ -1242,7 +1321,8 @@ def run_xtalk(ctx, case, res):
     prelude = XT_PRELUDE
     B = judge_batch(ctx, dict(case, kind="batch"), res, items, prelude)
     for it in items:
-        res.features.add("xtalk:%s:%s" % (it["k"], E.root_sig(it["node"])))
+        if it.get("node") is not None:
+            res.features.add("xtalk:%s:%s" % (it["k"], E.root_sig(it["node"])))
     # default arguments: the database's prototype must show an expression of the same value (its text is evaluated by
     # g++ next to the original; text g++ rejects is not judged here)
     fit = [it for it in items if it["k"] == "defarg"]
@@ -1484,7 +1564,8 @@ def main(chk):
     for i in range(chk.pick(2, 12)):
         cases.append(dict(id="u%d" % i, kind="uneval", subseed=chk.rng.getrandbits(48), n=chk.pick(40, 80)))
     for i in range(chk.pick(6, 60)):
-        cases.append(dict(id="x%d" % i, kind="xtalk", subseed=chk.rng.getrandbits(48), groups=chk.pick(10, 14)))
+        cases.append(dict(id="x%d" % i, kind="xtalk", subseed=chk.rng.getrandbits(48), groups=chk.pick(10, 14),
+                          scoped=7))
     chk.run_cases(__name__, cases)
     chk.extra["operator_pairs_total"] = len(pairs)
     chk.extra["operator_pair_signatures_seen_equal"] = len([f for f in chk.features if f.startswith("pair:")])
